@@ -1,6 +1,5 @@
 //! C17 — `topo_sort`, `SubgraphMerge`, `UnionFind` against own reference models.
 use std::collections::BTreeSet;
-use std::sync::Mutex;
 
 use dfir_lang::graph::GraphNodeId;
 use dfir_lang::graph::graph_algorithms::{SubgraphMerge, topo_sort};
@@ -8,7 +7,7 @@ use dfir_lang::union_find::UnionFind;
 use slotmap::SlotMap;
 use vf_explore::{Report, Stats, Value, catch, combi, json, ncpu, par_map};
 
-use crate::Viol;
+use crate::{Viol, Viols};
 
 // ------------------------------------------------------------------------------------------
 // topo_sort
@@ -105,7 +104,7 @@ fn edges_of(mask: u32, n: usize) -> Vec<(usize, usize)> {
     e
 }
 
-fn topo_section(thorough: bool, viols: &Mutex<Vec<Viol>>) -> Stats {
+fn topo_section(thorough: bool, viols: &Viols) -> Stats {
     let mut plan: Vec<(usize, Vec<Vec<u8>>, Vec<u8>)> = vec![];
     for n in 1..=4usize {
         let ids: Vec<u8> = (0..n as u8).collect();
@@ -134,7 +133,7 @@ fn topo_section(thorough: bool, viols: &Mutex<Vec<Viol>>) -> Stats {
                             st.sample(|| json!({"section": "topo_sort", "n": n, "edges": edges_of(mask, n), "order": ord, "result": tag}));
                         }
                         if let Some((key, what)) = v {
-                            viols.lock().unwrap().push(Viol {
+                            viols.push(Viol {
                                 key,
                                 what,
                                 size: n * 100 + mask.count_ones() as usize,
@@ -320,7 +319,7 @@ pub fn merge_case(n: usize, mask: u32, enemies: &[(usize, usize)], hist: &[(usiz
     }
 }
 
-fn merge_section(thorough: bool, viols: &Mutex<Vec<Viol>>) -> (Stats, Value) {
+fn merge_section(thorough: bool, viols: &Viols) -> (Stats, Value) {
     // (n, max enemies, [(alphabet incl. u==u?, len)])
     let plans: Vec<(usize, usize, usize, usize)> = if thorough {
         // (n, max_enemies, full-alphabet length, distinct-pair-only extra length)
@@ -367,7 +366,7 @@ fn merge_section(thorough: bool, viols: &Mutex<Vec<Viol>>) -> (Stats, Value) {
                         st.sample(|| json!({"section": "subgraph_merge", "n": n, "dag": edges_of(mask, n), "enemies": enemy_sets[ei], "history": h, "answers": tag}));
                     }
                     if let Some((key, what)) = v {
-                        viols.lock().unwrap().push(Viol {
+                        viols.push(Viol {
                             key,
                             what,
                             size: n * 1000 + h.len() * 100 + mask.count_ones() as usize,
@@ -461,7 +460,7 @@ pub fn uf_case(nk: usize, hist: &[UfOp]) -> (String, Option<(String, String)>) {
     }
 }
 
-fn uf_section(thorough: bool, viols: &Mutex<Vec<Viol>>) -> Stats {
+fn uf_section(thorough: bool, viols: &Viols) -> Stats {
     let nk = 4;
     let mut ops = vec![];
     for a in 0..nk {
@@ -498,7 +497,7 @@ fn uf_section(thorough: bool, viols: &Mutex<Vec<Viol>>) -> Stats {
                 st.sample(|| json!({"section": "union_find", "history": format!("{h:?}"), "answers": tag}));
             }
             if let Some((key, what)) = v {
-                viols.lock().unwrap().push(Viol {
+                viols.push(Viol {
                     key,
                     what,
                     size: h.len(),
@@ -517,7 +516,7 @@ fn uf_section(thorough: bool, viols: &Mutex<Vec<Viol>>) -> Stats {
 
 // ------------------------------------------------------------------------------------------
 
-pub fn run(rep: &mut Report, viols: &Mutex<Vec<Viol>>) {
+pub fn run(rep: &mut Report, viols: &Viols) {
     let thorough = rep.thorough();
     rep.rule = "topo_sort: a case = (digraph on n nodes incl. self-loops, node iteration order, predecessor listing mode); distinct = distinct (n, edge set). SubgraphMerge: a case = (labelled DAG, symmetric enemy set, history of try_merge calls), every history rebuilt from scratch (no state dedup: hidden state cannot be revealed); distinct = (DAG, enemy set). UnionFind: a case = history of union/find/same_set over 4 keys; distinct = distinct answer patterns.".into();
     rep.explanation = "Real dfir_lang::graph::graph_algorithms::{topo_sort, SubgraphMerge} and dfir_lang::union_find::UnionFind executed on every case; compared with own Kahn acyclicity test, own partition model with enemy/quotient-cycle prediction of each try_merge answer, and invariants (contiguous groups = model classes, concatenation topological, no enemy pair inside a group, quotient acyclic, same_set == model) after every try_merge.".into();
